@@ -207,10 +207,10 @@ PROPS['C11'] = dict(
 )
 
 PROPS['C19'] = dict(
-    lean_modules=['Model.Keccak', 'Model.Eip712', 'Model.Sig', 'Properties.C19', 'Properties.C19Inj', 'Facts.Crypto'],
+    lean_modules=['Model.Keccak', 'Model.Eip712', 'Model.Sig', 'Properties.C19', 'Properties.C19Inj', 'Properties.C19Flat', 'Facts.Crypto'],
     facts=['*'],
     theorems=['C19_verify_sound', 'C19_one_key', 'C19_one_message', 'C19_malformed_refused', 'C19_honest_accepted', 'C19_prim_injective',
-              'C19_extra_data_refused', 'C19_flatten_refuses_shadow', 'C19_rendering_injective', 'C19_typed_injective', 'C19_numeric_string_collides', 'members_inj', 'field_inj', 'item_inj', 'pigeonhole', 'canonB_sound', 'membersNodupB_sound', 'fact_verify_shape', 'fact_verify_ecdsa', 'fact_key_sizes', 'fact_address_calls',
+              'C19_extra_data_refused', 'C19_flatten_refuses_shadow', 'C19_rendering_injective', 'C19_typed_injective', 'C19_document_injective', 'C19_flatten_injective', 'C19_flatten_collides', 'topOK_sound', 'go_spec', 'msgField_inj', 'C19_numeric_string_collides', 'members_inj', 'field_inj', 'item_inj', 'pigeonhole', 'canonB_sound', 'membersNodupB_sound', 'fact_verify_shape', 'fact_verify_ecdsa', 'fact_key_sizes', 'fact_address_calls',
               'fact_eip712_fixed_types', 'fact_eip712_consts', 'fact_eip712_domain', 'fact_eip712_orders', 'fact_cpc_verify'],
     engines=[dict(name='crypto', test='TestEngineCrypto', quick=1500, thorough=30000, thorough_seeds=3)],
     level='partial',
@@ -218,7 +218,7 @@ PROPS['C19'] = dict(
     assumptions=['ECDSA (unforgeability) and Keccak-256 (collision resistance) are ideal primitives of the model, not proved',
                  'BIP-39/32/44 conformance and the encodings are tested against a second implementation and published vectors (sampled, not proved)',
                  'the EIP-712 model covers documents with distinct ASCII keys and integral numbers |n| <= 2^53 (canonical amino JSON is inside); gjson path characters in keys are outside',
-                 'injectivity of the rendering (C19_typed_injective) is proved for an ideal hash with the type hash injective in (type name, member list), for documents that are canonical, whose derived schema lists members once and types them by their own JSON kind (docOK): docOK is evaluated by the Lean driver on every real sign document of the run (must be 1), it is not proved to follow from the type generation; the step from the flattened message back to the msgs array is not formalised (flatten refuses documents with a msg{i} key)'],
+                 'injectivity of the rendering (C19_typed_injective) is proved for an ideal hash with the type hash injective in (type name, member list), for documents that are canonical, whose derived schema lists members once and types them by their own JSON kind (docOK): docOK is evaluated by the Lean driver on every real sign document of the run (must be 1), it is not proved to follow from the type generation; the step from the flattened message back to the msgs array is C19_flatten_injective (documents without a top-level member msg<i>, evaluated likewise: topOK; C19_flatten_collides shows the hypothesis is needed)'],
     technique='Lean 4 theorems over an ideal-signature model of VerifySignature and an executable EIP-712 rendering model (with Keccak-256 in Lean) + regenerated AST facts + digest-for-digest differential against the real code; key derivation and encodings by differential test only',
 )
 
@@ -359,7 +359,7 @@ LEVEL_TEXT = {
  'C16': 'Proof over the vauth model (a stored proof is unforgeable relative to ideal recovery, final, and gates vesting creation) + E-vauth / E-ante on real blocks.',
  'C17': 'Proof: registry invariant by induction over every operation sequence (type immutable, one ERC-20 per denom, version monotone, exposure = enabled set) + E-cpc on the real message server, keeper and both EVM construction paths.',
  'C18': 'Proof over the genesis model for what the modules export, with the lossy parts refuted by witnesses (known finding F10) + E-genesis: export, InitChain of a fresh application, second export.',
- 'C19': 'Partial proof: decision logic of VerifySignature over ideal ECDSA / Keccak (one key, one message); injectivity of the EIP-712 rendering proved for an ideal hash (C19_typed_injective: equal renderings => equal chain id and the same document, objects as maps) under hypotheses that the driver evaluates on every real sign document; the rendering itself is an executable Lean model (with Keccak-256 in Lean) compared digest for digest with the Go code. Unforgeability, collision resistance and BIP-32 conformance are assumptions / tests.',
+ 'C19': 'Partial proof: decision logic of VerifySignature over ideal ECDSA / Keccak (one key, one message); injectivity of the EIP-712 rendering proved for an ideal hash (C19_document_injective: equal renderings => equal chain id, the same msgs array and the same other members, objects as maps) under hypotheses that the driver evaluates on every real sign document; the rendering itself is an executable Lean model (with Keccak-256 in Lean) compared digest for digest with the Go code. Unforgeability, collision resistance and BIP-32 conformance are assumptions / tests.',
  'C20': 'Partial proof: isolation of refused transactions and totality of end-of-block processing in the models, invariant proof of the event system channel protocol for every schedule (with regenerated lock-order facts and schedule replay on the real goroutines). Crash-freedom of decoding and execution for arbitrary bytes is explored (E-crash), not proved.',
 }
 HOOK_COMMITS = ['6892cbf4753434ae03c9f54a2d1a2dc6d5dfb558', '48ae13975a8de05cf1d0c8f44e7e45cc6a4855be']
